@@ -23,6 +23,10 @@ func drawReadCfg(r *eng.Run, apps []int) ReadCfg {
 		cfg.OnCont = r.T.Bool(sim.LCfg)
 		cfg.CheckUTF8 = r.T.Bool(sim.LCfg)
 		cfg.Extended = r.T.Chance(sim.LCfg, 1, 4)
+		cfg.ProbeIdle = r.T.Chance(sim.LCfg, 1, 4)
+		if r.T.Chance(sim.LCfg, 1, 5) {
+			cfg.Bufio = []int{16, 64, 4096}[r.T.Int(sim.LSize, 3)]
+		}
 	case AppReadMessage:
 		cfg.Variant = r.T.Int(sim.LCfg, 2)
 		cfg.SeedMsgs = r.T.Bool(sim.LCfg)
